@@ -157,6 +157,9 @@ def interp_jump_poly(ast, consts, polyparam):
             return c
         if n["k"] == "DeclRefExpr" and n["name"] in env:
             return env[n["name"]]
+        if n["k"] == "BinaryOperator" and n["op"] in ("+", "-", "*"):
+            a, b = ival(n["c"][0]), ival(n["c"][1])
+            return a + b if n["op"] == "+" else a - b if n["op"] == "-" else a * b
         raise OutOfVocabulary("jump(g): non-constant index " + show(n))
 
     def range_bound(forrange):
@@ -209,7 +212,7 @@ def interp_jump_poly(ast, consts, polyparam):
                 raise OutOfVocabulary("jump(g): bit test does not read the polynomial: " + show(lhs))
             word = ival(lhs["c"][2])
             if not (rhs["k"] == "BinaryOperator" and rhs["op"] == "<<"
-                    and const_int(rhs["c"][0]) == 1):
+                    and const_int(strip(rhs["c"][0])) == 1):
                 raise OutOfVocabulary("jump(g): mask is not 1 << j: " + show(rhs))
             bit = ival(rhs["c"][1])
             if not (0 <= bit < 32):
